@@ -4,4 +4,4 @@ Require Extraction.
 Require Import ExtrOcamlBasic.
 From DV Require Import Lib.Base Spec.Codec Wire.Writer.
 Extraction Language OCaml.
-Extraction "model_writer.ml" winit writer_step run_ops wresult run_writer run_writer_from ops_of_val ops_of_vals.
+Extraction "model_writer.ml" winit writer_step run_ops wresult run_writer run_writer_from ops_of_val ops_of_vals ops_of_args val_of_arg run_calls marshal_fixed_multi.
